@@ -16061,7 +16061,14 @@ gcry_error_t CallasDonnerhackeFinneyShawThayerRFC4880::AsymmetricVerifyDSA
 	if (ret)
 		return ret;
 	qbits = gcry_mpi_get_nbits(q);
+	// libgcrypt aborts (assertion in _gcry_mpi_mulpowm) if s has no inverse
+	// modulo q, e.g. for a received key with an even or composite q
+	gcry_mpi_t sq_gcd = gcry_mpi_new(qbits);
+	bool sq_coprime = gcry_mpi_gcd(sq_gcd, s, q);
+	gcry_mpi_release(sq_gcd);
 	gcry_mpi_release(q);
+	if (!sq_coprime)
+		return gcry_error(GPG_ERR_BAD_PUBKEY); // error: s not invertible mod q
 	if (((in.size() * 8) < qbits) || (qbits < 160))
 		return gcry_error(GPG_ERR_BAD_PUBKEY); // error: q-length out of spec
 	trunclen = in.size();
